@@ -22,7 +22,7 @@ ASSUMPTIONS = ['templates are read through cgsmiles\' own fragment reader',
 
 def budget(tier):
     if tier == 'thorough':
-        return dict(examples=2000, shards=16, procs=16)
+        return dict(examples=6000, shards=16, procs=16)
     return dict(examples=700, shards=4, procs=4)
 
 
